@@ -455,7 +455,11 @@ def _one_pass(scen, objs, which, on_draw=None):
                 x = obj.draw_sample(n_arg, random_state=seed)
             else:
                 x = obj.draw_sample(n_arg, random_state=gens[rs["gen"]])
-            out.append(np.asarray(x))
+            out.append(np.array(x, dtype=float, copy=True))
+            # the caller post-processes what he was handed (sorts a column, converts units in place); the
+            # sample is his, a later draw must not hand the same array out again
+            if isinstance(x, np.ndarray) and x.size and x.flags.writeable:
+                x[...] = -777.25
         except Exception as e:  # noqa: BLE001 - an exception from the sampler is an outcome of the run
             raise DrawRaised(k, e)
         if on_draw is not None:
